@@ -525,6 +525,15 @@ func (s *SQLiteStore) streamBatch(
 		}
 	}
 
+	// rows.Next() also returns false when the iteration failed (row fetch error,
+	// cursor closed because the context was cancelled): that is not the end of the log.
+	if err := rows.Err(); err != nil {
+		rows.Close() // Best effort close, iteration error takes precedence
+		*iterErr = fmt.Errorf("sqlite: iterate events: %w", err)
+		yield(nil, *iterErr)
+		return batchCount, lastPos, false
+	}
+
 	if err := rows.Close(); err != nil {
 		*iterErr = fmt.Errorf("sqlite: close rows: %w", err)
 		yield(nil, *iterErr)
